@@ -44,6 +44,10 @@ class RIB:
 
         self.incoming = self._cache[name].incoming
         self.outgoing = self._cache[name].outgoing
+        # the reused tables keep what they hold, not the settings they were created with:
+        # a reload may have changed adj-rib-in / adj-rib-out
+        self.incoming.cache = adj_rib_in
+        self.outgoing.cache = adj_rib_out
         self.incoming.families = families
         self.outgoing.families = families
         self.outgoing.delete_cached_family(families)
@@ -72,6 +76,8 @@ class RIB:
             self.outgoing = cached_rib.outgoing
             self.incoming.enabled = True
             self.outgoing.enabled = True
+            self.incoming.cache = adj_rib_in
+            self.outgoing.cache = adj_rib_out
             self.incoming.families = families
             self.outgoing.families = families
             self.outgoing.delete_cached_family(families)
